@@ -27,8 +27,10 @@ type svidSource struct {
 // GetX509SVID returns the current X.509 certificate identity as a SPIFFE SVID.
 // Implements the go-spiffe x509 source interface.
 func (s *svidSource) GetX509SVID() (*x509svid.SVID, error) {
+	verifPoint("spiffe.get.enter")
 	s.spiffe.lock.RLock()
 	defer s.spiffe.lock.RUnlock()
+	verifPoint("spiffe.get.locked")
 
 	<-s.spiffe.readyCh
 
